@@ -3,7 +3,7 @@
 # Prints one line per check; any rc!=0 or VIOLATION line on the unchanged tree is a defect of the machinery or a new finding.
 SEED=$1; TIER=$2; shift 2
 HERE=$(cd "$(dirname "$0")" && pwd)
-DST=/var/tmp/verif-sweep-$SEED-$TIER
+DST=/var/tmp/verif-sweep-$SEED-$TIER${SWEEP_TAG:+-$SWEEP_TAG}
 rm -rf "$DST"; mkdir -p "$DST"
 rsync -a --exclude build --exclude .git "$HERE"/ "$DST"/
 cd "$DST" && ./setup.sh >/dev/null 2>&1
